@@ -15,7 +15,7 @@ import ast
 
 from ..astutil import calls, const, kw, parent_map, short
 from ..backends import backend_paths, reachable
-from ..effects import CONT, MEM, OBJ, Effects, is_arraylike
+from ..effects import CONT, LSTORE, MEM, OBJ, Effects, is_arraylike
 from ..program import AnalysisIncomplete, BackendTable, Ext, Func, Partial, norm
 
 GPU_MODULES = ('xrspatial.gpu_rtx',)
@@ -121,7 +121,7 @@ def check_S2(prog, rep, eff):
             if not mutable:
                 continue
             s = eff.summary(f)
-            evs = [e for e in s.events if e.root == ('param', p) and e.level != CONT]
+            evs = [e for e in s.events if e.root == ('param', p) and e.level not in (CONT, LSTORE)]
             rets = [1 for r, lv in s.returns if r == ('param', p) and lv == OBJ]
             esc = [x for x in s.escapes if x[0] == ('param', p)]
             why = ''
@@ -456,7 +456,7 @@ def check_S6(prog, rep, eff):
             continue
         n += 1
         s = eff.summary(g)
-        bad = [e for e in s.events if e.root[0] in ('param', 'capt', 'global') and e.level != CONT and
+        bad = [e for e in s.events if e.root[0] in ('param', 'capt', 'global') and e.level not in (CONT, LSTORE) and
                (e.root[0] != 'param' or is_arraylike(prog, g, e.root[1]) or not e.kind.startswith('augmented assignment'))]
         bad = [e for e in bad if not (e.root[0] == 'param' and e.kind.startswith('augmented assignment') and
                                       not is_arraylike(prog, g, e.root[1]))]
